@@ -220,3 +220,159 @@ Proof.
   assert (Hv : valid d (concat ss) t) by (apply check_tree_valid; auto using program_ok_concat).
   split; [exact Hv|]. eapply valid_in_model; eauto.
 Qed.
+
+(** * The rejecting verdicts that name a defect of the tree itself are witnessed *)
+Definition res_valid (d : db) (cs : list clause) (res : tree_result) : Prop :=
+  match res with
+  | TFactAbsent r t => ~ In t (rel_of d r)
+  | TBadRule r t k => nth_error (clauses_for cs r) k = None
+  | THeadMismatch r t k =>
+      exists c, nth_error (clauses_for cs r) k = Some c /\ forall s, ~ Forall2 (den s) (c_args c) t
+  | _ => True
+  end.
+
+Lemma walk_reject d cs r0 t0 : forall ls chs i e res,
+  Forall (fun ch => forall res, check_tree d cs ch = Ok res -> res_valid d cs res) chs ->
+  walk (fun ch => check_tree d cs ch) d r0 t0 i ls chs e = Ok res -> res_valid d cs res.
+Proof.
+  induction ls as [|l ls IH]; intros chs i e res HIH H.
+  - destruct chs; inversion H; exact I.
+  - destruct chs as [|ch chs]; [destruct l as [[| |]| |]; inversion H; exact I|].
+    inversion HIH as [|? ? Hch HIH']; subst.
+    destruct l as [[r args|r args|c a b]|x k ty target body|x ty from to step];
+      destruct ch as [r' tup k' chs'|r' tup|r'|]; cbn [walk] in H; try (inversion H; exact I).
+    + destruct (Nat.eqb r r'); [|inversion H; exact I].
+      apply bind_ok in H as (o & Hm & H). destruct o as [e1|]; [|inversion H; exact I].
+      apply bind_ok in H as (res' & Hres & H). apply Hch in Hres.
+      destruct res'; try (inversion H; subst; exact Hres). eapply IH; eauto.
+    + destruct (Nat.eqb r r') eqn:Er; [|inversion H; exact I]. apply Nat.eqb_eq in Er. subst r'.
+      destruct (mem_tuple tup (rel_of d r)) eqn:M.
+      * apply bind_ok in H as (o & Hm & H). destruct o as [e1|]; [|inversion H; exact I]. eapply IH; eauto.
+      * inversion H; subst. simpl. intro Hin. apply mem_tuple_spec in Hin. congruence.
+    + destruct (Nat.eqb r r'); [|inversion H; exact I].
+      destruct (ground_or_anon e args); [|discriminate].
+      apply bind_ok in H as (bb & Hb & H). destruct bb; [inversion H; exact I|]. eapply IH; eauto.
+    + apply bind_ok in H as (es & Hst & H). destruct es as [|e1 [|e2 es]]; try (inversion H; exact I). eapply IH; eauto.
+    + apply bind_ok in H as (es & Hst & H). destruct es as [|e1 [|e2 es]]; try (inversion H; exact I). eapply IH; eauto.
+    + apply bind_ok in H as (es & Hst & H). destruct es as [|e1 [|e2 es]]; try (inversion H; exact I). eapply IH; eauto.
+Qed.
+
+Theorem check_tree_reject_witness d cs t res : check_tree d cs t = Ok res -> res_valid d cs res.
+Proof.
+  revert res. induction t as [r tup k chs IH|r tup|r|] using ptree_ind'; intros res H.
+  - cbn [check_tree] in H. destruct (nth_error (clauses_for cs r) k) as [c|] eqn:Hc.
+    + apply bind_ok in H as (o & Hm & H). destruct o as [e|].
+      * eapply walk_reject; eauto.
+      * inversion H; subst. simpl. exists c. split; [exact Hc|]. intros s Hd.
+        apply match_terms_post in Hm. exact (Hm s (ext_nil s) Hd).
+    + inversion H; subst. exact Hc.
+  - simpl in H. inversion H. destruct (mem_tuple tup (rel_of d r)) eqn:M; simpl; [exact I|].
+    intro Hin. apply mem_tuple_spec in Hin. congruence.
+  - inversion H. exact I.
+  - inversion H. exact I.
+Qed.
+
+(** * "Tuple not found" *)
+Theorem not_found_correct d r t : absent d r t = true <-> ~ In t (rel_of d r).
+Proof.
+  unfold absent. rewrite negb_true_iff. split.
+  - intros H Hin. apply mem_tuple_spec in Hin. congruence.
+  - intro H. destruct (mem_tuple t (rel_of d r)) eqn:M; [|reflexivity]. apply mem_tuple_spec in M. tauto.
+Qed.
+(** against the model: for the final database of a correct run, "not found" is answered exactly
+    for the tuples outside the stratified model *)
+Corollary not_found_model edb ss d r t :
+  (forall r tup, In tup (rel_of d r) <-> strat_model (holds edb) ss r tup) ->
+  (absent d r t = true <-> ~ strat_model (holds edb) ss r t).
+Proof. intro Hd. rewrite not_found_correct, (Hd r t). tauto. Qed.
+
+Lemma tuples_nodup_spec l : tuples_nodup l = true -> NoDup l.
+Proof.
+  induction l as [|x l IH]; simpl; intro H; constructor; apply andb_true_iff in H as [H1 H2]; auto.
+  intro Hin. apply mem_tuple_spec in Hin. rewrite Hin in H1. discriminate.
+Qed.
+Lemma tree_hyps_spec d cs : tree_hyps d cs = true -> db_nodup d /\ clauses_ok cs = true.
+Proof.
+  unfold tree_hyps. intro H. apply andb_true_iff in H as [H1 H2]. split; [|exact H2].
+  intro r. unfold db_nodup_b in H1. induction d as [|[r' ts] d IH]; simpl; [constructor|].
+  simpl in H1. apply andb_true_iff in H1 as [A B]. destruct (Nat.eqb r r'); [now apply tuples_nodup_spec|auto].
+Qed.
+
+(** * Examples:  p(x,y) :- e(x,y).   p(x,z) :- p(x,y), e(y,z), x != z.   q(x,y) :- e(x,y), !e(y,x).
+    (0 = e, 1 = p, 2 = q) *)
+Local Open Scope Z_scope.
+Definition tp (a b : Z) : tuple := [VNum a; VNum b].
+Definition pt_c1 : clause := {| c_rel := 1; c_args := [TVar 0; TVar 1]; c_body := [LS (SPos 0 [TVar 0; TVar 1])] |}.
+Definition pt_c2 : clause :=
+  {| c_rel := 1; c_args := [TVar 0; TVar 2];
+     c_body := [LS (SPos 1 [TVar 0; TVar 1]); LS (SPos 0 [TVar 1; TVar 2]); LS (SCmp CNe (TVar 0) (TVar 2))] |}.
+Definition pt_c3 : clause :=
+  {| c_rel := 2; c_args := [TVar 0; TVar 1];
+     c_body := [LS (SPos 0 [TVar 0; TVar 1]); LS (SNeg 0 [TVar 1; TVar 0])] |}.
+Definition pt_ss : list (list clause) := [[pt_c1; pt_c2]; [pt_c3]].
+Definition pt_cs : list clause := concat pt_ss.
+Definition pt_edb : db := [(0%nat, [tp 1 2; tp 2 3; tp 3 4])].
+Definition pt_d : db :=
+  pt_edb ++ [(1%nat, [tp 1 2; tp 2 3; tp 3 4; tp 1 3; tp 2 4; tp 1 4]); (2%nat, [tp 1 2; tp 2 3; tp 3 4])].
+Example pt_run : run_program 10 pt_edb pt_ss = Ok (Some (pt_d, [3; 1]%nat)).
+Proof. vm_compute. reflexivity. Qed.
+
+(** the tree printed by `explain p(1,4)` *)
+Definition pt_tree : ptree :=
+  PNode 1 (tp 1 4) 1
+    [ PNode 1 (tp 1 3) 1 [ PNode 1 (tp 1 2) 0 [PFact 0 (tp 1 2)]; PFact 0 (tp 2 3); PCons ];
+      PFact 0 (tp 3 4); PCons ].
+Example pt_accept : check_tree pt_d pt_cs pt_tree = Ok TOk.
+Proof. vm_compute. reflexivity. Qed.
+Example pt_accept_neg : check_tree pt_d pt_cs (PNode 2 (tp 1 2) 0 [PFact 0 (tp 1 2); PNeg 0]) = Ok TOk.
+Proof. vm_compute. reflexivity. Qed.
+(** mutations *)
+Example pt_wrong_rule :
+  check_tree pt_d pt_cs (PNode 1 (tp 1 2) 7 [PFact 0 (tp 1 2)]) = Ok (TBadRule 1 (tp 1 2) 7) /\
+  check_tree pt_d pt_cs (PNode 1 (tp 1 2) 1 [PFact 0 (tp 1 2)]) = Ok (TBadChild 1 (tp 1 2) 0).
+Proof. vm_compute. auto. Qed.
+Example pt_join_mismatch :
+  check_tree pt_d pt_cs
+    (PNode 1 (tp 1 4) 1 [ PNode 1 (tp 2 3) 1 [ PNode 1 (tp 2 3) 0 [PFact 0 (tp 2 3)] ]; PFact 0 (tp 3 4); PCons ])
+  = Ok (TBadChild 1 (tp 1 4) 0).
+Proof. vm_compute. reflexivity. Qed.
+Example pt_neg_present :
+  check_tree ((0%nat, [tp 1 2; tp 2 1]) :: nil) pt_cs (PNode 2 (tp 1 2) 0 [PFact 0 (tp 1 2); PNeg 0])
+  = Ok (TNegPresent 2 (tp 1 2) 1).
+Proof. vm_compute. reflexivity. Qed.
+Example pt_false_constraint :
+  check_tree ((0%nat, [tp 3 4; tp 4 3]) :: nil) pt_cs
+    (PNode 1 (tp 3 3) 1 [ PNode 1 (tp 3 4) 0 [PFact 0 (tp 3 4)]; PFact 0 (tp 4 3); PCons ])
+  = Ok (TConstraintFalse 1 (tp 3 3) 2).
+Proof. vm_compute. reflexivity. Qed.
+Example pt_fact_absent :
+  check_tree pt_d pt_cs (PNode 1 (tp 9 9) 0 [PFact 0 (tp 9 9)]) = Ok (TFactAbsent 0 (tp 9 9)).
+Proof. vm_compute. reflexivity. Qed.
+Example pt_head_mismatch :
+  check_tree pt_d pt_cs (PNode 1 [VNum 1] 0 [PFact 0 (tp 1 2)]) = Ok (THeadMismatch 1 [VNum 1] 0).
+Proof. vm_compute. reflexivity. Qed.
+Example pt_absent : absent pt_d 1 (tp 4 1) = true /\ absent pt_d 1 (tp 1 4) = false.
+Proof. vm_compute. auto. Qed.
+
+(** the hypotheses of [check_tree_sound] hold for this instance; hence p(1,4) is in the model *)
+Example pt_hyps : strata_ok [] pt_ss = true /\ program_ok pt_ss = true /\ program_det pt_ss = true /\
+                  tree_hyps pt_d pt_cs = true.
+Proof. vm_compute. auto. Qed.
+Example pt_d_is_model : forall r tup, In tup (rel_of pt_d r) <-> strat_model (holds pt_edb) pt_ss r tup.
+Proof.
+  destruct pt_hyps as (_ & H2 & H3 & _).
+  apply (run_program_correct 10 pt_edb pt_ss pt_d [3; 1]%nat H2 H3); [|exact pt_run].
+  apply db_nodup_check. vm_compute. reflexivity.
+Qed.
+Example pt_root_in_model : strat_model (holds pt_edb) pt_ss 1%nat (tp 1 4).
+Proof.
+  destruct pt_hyps as (H1 & H2 & _ & H4). destruct (tree_hyps_spec _ _ H4) as [Hnd _].
+  destruct (check_tree_sound pt_edb pt_ss pt_d pt_tree H1 H2 Hnd pt_d_is_model pt_accept) as [_ H].
+  apply H. reflexivity.
+Qed.
+
+(* NOT PROVED:
+   - check_tree_complete_partial (every tuple of the model has an accepted tree of height bounded by
+     the number of rounds): not attempted.
+   - Witnesses for TBadChild / TConstraintFalse / TNegPresent / TAmbiguous are not stated: they
+     depend on the bindings accumulated along the body, which the verdict does not carry. *)
